@@ -1562,6 +1562,16 @@ func (mvcc *MVCCLevelDB) TxnHeartBeat(key []byte, startTS uint64, adviseTTL uint
 
 // ScanLock implements the MVCCStore interface.
 func (mvcc *MVCCLevelDB) ScanLock(startKey, endKey []byte, maxTS uint64) ([]*kvrpcpb.LockInfo, error) {
+	return mvcc.scanLock(startKey, endKey, maxTS, false)
+}
+
+// ScanLockWithDetails is like ScanLock, but the returned locks also carry what a lock resolver needs to know about
+// them (lock type, ttl, txn size, for-update ts, min-commit ts), as in a ScanLock response of TiKV.
+func (mvcc *MVCCLevelDB) ScanLockWithDetails(startKey, endKey []byte, maxTS uint64) ([]*kvrpcpb.LockInfo, error) {
+	return mvcc.scanLock(startKey, endKey, maxTS, true)
+}
+
+func (mvcc *MVCCLevelDB) scanLock(startKey, endKey []byte, maxTS uint64, withDetails bool) ([]*kvrpcpb.LockInfo, error) {
 	mvcc.mu.RLock()
 	defer mvcc.mu.RUnlock()
 
@@ -1579,11 +1589,19 @@ func (mvcc *MVCCLevelDB) ScanLock(startKey, endKey []byte, maxTS uint64) ([]*kvr
 			return nil, err
 		}
 		if ok && dec.lock.startTS <= maxTS {
-			locks = append(locks, &kvrpcpb.LockInfo{
+			info := &kvrpcpb.LockInfo{
 				PrimaryLock: dec.lock.primary,
 				LockVersion: dec.lock.startTS,
 				Key:         currKey,
-			})
+			}
+			if withDetails {
+				info.LockTtl = dec.lock.ttl
+				info.TxnSize = dec.lock.txnSize
+				info.LockType = dec.lock.op
+				info.LockForUpdateTs = dec.lock.forUpdateTS
+				info.MinCommitTs = dec.lock.minCommitTS
+			}
+			locks = append(locks, info)
 		}
 
 		skip := skipDecoder{currKey: currKey}
